@@ -24,6 +24,7 @@ import (
 	"os"
 	"path/filepath"
 	"sort"
+	"strconv"
 	"strings"
 
 	"github.com/openconfig/goyang/pkg/yang"
@@ -36,6 +37,22 @@ type header struct {
 	Sub  bool     `json:"sub"`
 	Name string   `json:"name"`
 	Revs []string `json:"revs"`
+	// Cont: a further statement of the same source text as the load before it (one Parse call per
+	// text, which is all or nothing)
+	Cont bool `json:"cont,omitempty"`
+}
+
+// texts groups the loads of a case into source texts (indices into c.Loads).
+func (c regCase) texts() [][]int {
+	var ts [][]int
+	for i, h := range c.Loads {
+		if h.Cont && len(ts) > 0 {
+			ts[len(ts)-1] = append(ts[len(ts)-1], i)
+		} else {
+			ts = append(ts, []int{i})
+		}
+	}
+	return ts
 }
 
 func (h header) text() string {
@@ -88,15 +105,21 @@ func fileOf(i int) string { return fmt.Sprintf("f%d.yang", i) }
 func (c regCase) request(op string) string {
 	var sb strings.Builder
 	sb.WriteString(op)
+	ti := -1
 	for i, h := range c.Loads {
-		k := " m "
+		k := "m "
 		if h.Sub {
-			k = " s "
+			k = "s "
 		}
-		sb.WriteString(k)
+		if h.Cont && i > 0 {
+			k = "+" + k
+		} else {
+			ti++
+		}
+		sb.WriteString(" " + k)
 		sb.WriteString(lib.HexS(h.Name))
 		sb.WriteByte(' ')
-		sb.WriteString(lib.HexS(fileOf(i)))
+		sb.WriteString(lib.HexS(fileOf(ti)))
 		fmt.Fprintf(&sb, " %d", len(h.Revs))
 		for _, r := range h.Revs {
 			sb.WriteByte(' ')
@@ -134,11 +157,22 @@ func srcFile(m *yang.Module) string {
 	return loc
 }
 
+// srcAt: the file and the position of the module's statement in its text (every statement of a
+// generated text stands on a line of its own), as the model renders it: file#index.
+func srcAt(m *yang.Module) string {
+	f := strings.Split(m.Statement().Location(), ":")
+	if len(f) < 3 {
+		return f[0] + "#?"
+	}
+	line, _ := strconv.Atoi(f[len(f)-2])
+	return strings.Join(f[:len(f)-2], ":") + "#" + strconv.Itoa(line-1)
+}
+
 func showMod(m *yang.Module) string {
 	if m == nil {
 		return "nil"
 	}
-	return lib.HexS(srcFile(m)) + ":" + lib.HexS(m.FullName())
+	return lib.HexS(srcAt(m)) + ":" + lib.HexS(m.FullName())
 }
 
 func showBindings(m map[string]*yang.Module) string {
@@ -166,8 +200,12 @@ func runRegistry(c regCase) (obs regObs) {
 	}()
 	ms := yang.NewModules()
 	var loads []string
-	for i, h := range c.Loads {
-		err := ms.Parse(h.text(), fileOf(i))
+	for ti, t := range c.texts() {
+		var lines []string
+		for _, i := range t {
+			lines = append(lines, c.Loads[i].text())
+		}
+		err := ms.Parse(strings.Join(lines, "\n"), fileOf(ti))
 		switch {
 		case err == nil:
 			loads = append(loads, "ok")
@@ -249,22 +287,22 @@ var (
 
 func universe(thorough bool) []header {
 	u := []header{
-		{false, "m", nil},
-		{false, "m", []string{r19}},
-		{false, "m", []string{r20}},
-		{false, "m", []string{r19, r20}}, // Current = 2020: same header as the one before
-		{false, "n", nil},
-		{false, "n", []string{r20}},
-		{true, "s", nil},
-		{true, "s", []string{r19}},
-		{true, "s", []string{r20, r19}},
-		{true, "m", nil}, // a submodule that shares its name with a module: separate table
+		{false, "m", nil, false},
+		{false, "m", []string{r19}, false},
+		{false, "m", []string{r20}, false},
+		{false, "m", []string{r19, r20}, false}, // Current = 2020: same header as the one before
+		{false, "n", nil, false},
+		{false, "n", []string{r20}, false},
+		{true, "s", nil, false},
+		{true, "s", []string{r19}, false},
+		{true, "s", []string{r20, r19}, false},
+		{true, "m", nil, false}, // a submodule that shares its name with a module: separate table
 		// D61: names with '@' (refused by add): as a bare name it is the full name of m@2020-01-01
-		{false, "m@2020-01-01", nil},
-		{false, "m@x", []string{r20}},
+		{false, "m@2020-01-01", nil, false},
+		{false, "m@x", []string{r20}, false},
 	}
 	if thorough {
-		u = append(u, header{false, "m", []string{"2019-12-31"}}, header{true, "m", []string{r20}})
+		u = append(u, header{false, "m", []string{"2019-12-31"}, false}, header{true, "m", []string{r20}, false})
 	}
 	return u
 }
@@ -306,9 +344,10 @@ func orderFree(c regCase, line string) string {
 	if len(f) != 4 {
 		return line
 	}
+	ts := c.texts()
 	for i, o := range strings.Split(strings.TrimPrefix(f[0], "loads="), ",") {
-		if o != "ok" && i < len(c.Loads) {
-			rej = append(rej, o+" "+c.Loads[i].id())
+		if o != "ok" && i < len(ts) {
+			rej = append(rej, o+" "+textID(c, ts[i]))
 		}
 	}
 	sort.Strings(rej)
@@ -330,10 +369,39 @@ func orderFree(c regCase, line string) string {
 		strip(strings.TrimPrefix(f[2], "subs="), 3) + " " + strip(strings.TrimPrefix(f[3], "q="), 2)
 }
 
+// orderOracleApplies: every text holds one statement, or no header occurs in two texts.
+func orderOracleApplies(c regCase) bool {
+	ts := c.texts()
+	if len(ts) == len(c.Loads) {
+		return true
+	}
+	where := map[string]int{}
+	for ti, t := range ts {
+		for _, i := range t {
+			id := c.Loads[i].id()
+			if w, ok := where[id]; ok && w != ti {
+				return false
+			}
+			where[id] = ti
+		}
+	}
+	return true
+}
+
+// textID names a text by the headers of its statements, in order.
+func textID(c regCase, t []int) string {
+	var ids []string
+	for _, i := range t {
+		ids = append(ids, c.Loads[i].id())
+	}
+	return strings.Join(ids, "+")
+}
+
+// multisetKey: the multiset of texts (the order of the texts is what may vary, not their content).
 func multisetKey(c regCase) string {
 	var ids []string
-	for _, h := range c.Loads {
-		ids = append(ids, h.id())
+	for _, t := range c.texts() {
+		ids = append(ids, textID(c, t))
 	}
 	sort.Strings(ids)
 	return strings.Join(ids, "|")
@@ -377,15 +445,38 @@ func partA(f *lib.Flags, res *lib.Result, d *lib.Driver, distinct *lib.Distinct)
 	// corpus: the witness of D61 in both load orders (not dates, and dates), with a second module without
 	// revision whose name is the other's full name
 	for _, w := range [][]header{
-		{{false, "m@2020", nil}, {false, "m", []string{"2020"}}},
-		{{false, "m", []string{"2020"}}, {false, "m@2020", nil}},
-		{{false, "m@2020-01-01", nil}, {false, "m", []string{r20}}, {false, "m@2020-01-01", nil}},
-		{{false, "m", []string{r20}}, {false, "m@2020-01-01", nil}, {true, "m@2020-01-01", nil}},
-		{{false, "m", []string{"2020@x"}}, {false, "m@2020", []string{"x"}}},
-		{{false, "m@2020", []string{"x"}}, {false, "m", []string{"2020@x"}}},
+		{{false, "m@2020", nil, false}, {false, "m", []string{"2020"}, false}},
+		{{false, "m", []string{"2020"}, false}, {false, "m@2020", nil, false}},
+		{{false, "m@2020-01-01", nil, false}, {false, "m", []string{r20}, false}, {false, "m@2020-01-01", nil, false}},
+		{{false, "m", []string{r20}, false}, {false, "m@2020-01-01", nil, false}, {true, "m@2020-01-01", nil, false}},
+		{{false, "m", []string{"2020@x"}, false}, {false, "m@2020", []string{"x"}, false}},
+		{{false, "m@2020", []string{"x"}, false}, {false, "m", []string{"2020@x"}, false}},
 	} {
 		cases = append(cases, regCase{Loads: w, Queries: append(stdQueries(), query{false, "m@2020", ""}, query{false, "m", "2020"},
 			query{false, "m", "2020@x"}, query{false, "m@2020", "x"})})
+	}
+	// texts with several statements (Modules.Parse adds them one after the other, all or nothing): every
+	// pair of headers as one text, alone, after every single load, and followed by a load that may clash;
+	// every triple as one text
+	cont := func(h header) header { h.Cont = true; return h }
+	followers := [][]header{nil, {u[2]}, {u[0]}}
+	for _, a := range u {
+		for _, b := range u {
+			for pi := -1; pi < len(u); pi++ {
+				for _, fo := range followers {
+					var ls []header
+					if pi >= 0 {
+						ls = append(ls, u[pi])
+					}
+					ls = append(ls, a, cont(b))
+					ls = append(ls, fo...)
+					cases = append(cases, regCase{Loads: ls, Queries: stdQueries()})
+				}
+			}
+			for _, c3 := range u {
+				cases = append(cases, regCase{Loads: []header{a, cont(b), cont(c3)}, Queries: stdQueries()})
+			}
+		}
 	}
 	// shortest sequences first: the first disagreements recorded are then the smallest witnesses
 	sort.SliceStable(cases, func(i, j int) bool { return len(cases[i].Loads) < len(cases[j].Loads) })
@@ -404,7 +495,7 @@ func partA(f *lib.Flags, res *lib.Result, d *lib.Driver, distinct *lib.Distinct)
 		var c regCase
 		wellFormed := rng.Intn(4) != 0
 		for j := 0; j < n; j++ {
-			h := header{Sub: rng.Intn(4) == 0, Name: names[rng.Intn(len(names))]}
+			h := header{Sub: rng.Intn(4) == 0, Name: names[rng.Intn(len(names))], Cont: j > 0 && rng.Intn(3) == 0}
 			for k := rng.Intn(4); k > 0; k-- {
 				pool := revPool
 				if wellFormed {
@@ -463,8 +554,11 @@ func partA(f *lib.Flags, res *lib.Result, d *lib.Driver, distinct *lib.Distinct)
 				break
 			}
 		}
-		// Go-side oracle: every permutation of one multiset of headers gives the same bindings
-		{
+		// Go-side oracle: every permutation of one multiset of texts gives the same bindings.  With texts of
+		// several statements this is claimed only when no header occurs in two different texts: a text
+		// is given up as a whole, so of two texts that share one header but differ otherwise the one
+		// loaded second is lost with everything in it, whichever that is.
+		if orderOracleApplies(c) {
 			k := multisetKey(c) + "#" + fmt.Sprint(c.Queries)
 			if j, ok := groups[k]; ok {
 				a, b := orderFree(cases[j], obs[j].Line), orderFree(c, o.Line)
@@ -1155,7 +1249,7 @@ func main() {
 	res.Exhaustive = false
 	res.Rule = "part (a): every sequence (with repetition) of at most N headers over the universe {m, m@2019-01-01, m@2020-01-01, " +
 		"m with both, n, n@2020-01-01, submodules s, s@2019-01-01, s with both, submodule m, and two names with '@': m@2020-01-01 without revision, m@x with revision (+2 more in the thorough tier)}, N = registry_max_enumerated_length, " +
-		"each loaded as YANG text, 12 import/include queries each (FindModule and Process()), plus the witnesses of D61 in both orders, plus seeded random sequences of 3-8 headers over names {m, mm, m-x, n, and non-identifiers m@2020-01-01, m@, @, m@2019-01-01@x, m.x, 9m, 'm x', m:n} " +
+		"each loaded as a YANG text of its own, plus texts holding two statements (every pair of headers: alone, after every single load, followed by a load that may clash) or three (every triple), 14 import/include queries each (FindModule and Process()), plus the witnesses of D61 in both orders, plus seeded random sequences of 3-8 headers over names {m, mm, m-x, n, and non-identifiers m@2020-01-01, m@, @, m@2019-01-01@x, m.x, 9m, 'm x', m:n} " +
 		"with 0-3 revisions each, a quarter of them with revision arguments that are not dates; all load orders of one multiset are compared with one another. " +
 		"part (b): real directory trees: every subset of a pool of candidate and near-miss names in one directory (current directory / path entry / below a `...` entry), " +
 		"every subset of {foo.yang, older, newer} in each of current directory, d1, d2 in both path orders, every subset of {exact, dated} in each of r, r/a, r/a/k, r/z under `r/...`, " +
@@ -1204,12 +1298,14 @@ func replay(f *lib.Flags, d *lib.Driver, work string) int {
 			}
 		}
 		// the other load orders of the same headers
-		if len(c.Loads) <= 6 {
+		if ts := c.texts(); len(ts) <= 6 && orderOracleApplies(c) {
 			base := orderFree(c, o.Line)
-			perm(len(c.Loads), func(ix []int) {
+			perm(len(ts), func(ix []int) {
 				pc := regCase{Queries: c.Queries}
-				for _, i := range ix {
-					pc.Loads = append(pc.Loads, c.Loads[i])
+				for _, ti := range ix {
+					for _, i := range ts[ti] {
+						pc.Loads = append(pc.Loads, c.Loads[i])
+					}
 				}
 				if of := orderFree(pc, runRegistry(pc).Line); of != base {
 					fmt.Printf("load order %v gives %s\n  instead of %s\n", ix, of, base)
